@@ -375,10 +375,7 @@ class Formatter:
 
         :return: The parsed elements
         """
-        escaped_fmt = re.escape(fmt)
-
-        tokens = self._FROM_FORMAT_RE.findall(escaped_fmt)
-        if not tokens:
+        if not self._FORMAT_RE.search(fmt):
             raise ValueError("The given time string does not match the given format")
 
         if not locale:
@@ -402,9 +399,22 @@ class Formatter:
             "timestamp": None,
         }
 
-        pattern = self._FROM_FORMAT_RE.sub(
-            lambda m: self._replace_tokens(m.group(0), loaded_locale), escaped_fmt
-        )
+        # Escaped text ([...] and \x) is recognised on the raw format, exactly
+        # like format() does, and only then turned into a literal pattern
+        pattern = ""
+        position = 0
+        for m in self._FORMAT_RE.finditer(fmt):
+            pattern += re.escape(fmt[position : m.start()])
+            position = m.end()
+
+            if m.group(3):
+                pattern += self._replace_tokens(m.group(3), loaded_locale)
+            elif m.group(2):
+                pattern += re.escape(m.group(2))
+            else:
+                pattern += re.escape(m.group(1) or "")
+
+        pattern += re.escape(fmt[position:])
 
         if not re.search("^" + pattern + "$", time):
             raise ValueError(f"String does not match format {fmt}")
